@@ -199,11 +199,18 @@ func (m *Mon) verdict(key string, n int) int {
 type Plugin struct {
 	PName string
 	Check bool
+	NoReq bool // a plugin that takes no request object (Request() returns nil)
 	M     *Mon
 }
 
 func (p *Plugin) Name() string             { return p.PName }
 func (p *Plugin) ValidateReq(req any) error {
+	if p.NoReq {
+		if req != nil {
+			return fmt.Errorf("this plugin takes no request")
+		}
+		return nil
+	}
 	r, ok := req.(Req)
 	if !ok {
 		return fmt.Errorf("request has the wrong type")
@@ -213,7 +220,12 @@ func (p *Plugin) ValidateReq(req any) error {
 	}
 	return nil
 }
-func (p *Plugin) Request() any              { return Req{} }
+func (p *Plugin) Request() any {
+	if p.NoReq {
+		return nil
+	}
+	return Req{}
+}
 func (p *Plugin) Response() any             { return Resp{} }
 func (p *Plugin) IsCheck() bool             { return p.Check }
 func (p *Plugin) Init() error               { return nil }
@@ -279,6 +291,7 @@ func NewRegistry(m *Mon) *registry.Register {
 	reg := registry.New()
 	reg.MustRegister(&Plugin{PName: "action", M: m})
 	reg.MustRegister(&Plugin{PName: "check", Check: true, M: m})
+	reg.MustRegister(&Plugin{PName: "noreq", Check: true, NoReq: true, M: m})
 	return reg
 }
 
